@@ -1535,6 +1535,14 @@ def r8_cgmass(ctx):
                                                                       "in that direction)", fn, (3,))
 
 
+def _r9(ctx):
+    from .c06_order import r9_reorder_worlds
+    r9_reorder_worlds(ctx)
+
+
+_r9.__doc__ = "cbreorder executed by value on every ordered boundary selection of a 4-DOF world (see c06_order)"
+
+
 RULES = [
     ("C06-R1", r1_cbtf, 30),
     ("C06-R2", r2_conversion, 17),
@@ -1544,6 +1552,7 @@ RULES = [
     ("C06-R6", r6_coordchk, 8),
     ("C06-R7", r7_reorder_geometry, 2),
     ("C06-R8", r8_cgmass, 7),
+    ("C06-R9", _r9, 4),
 ]
 LEVEL = "other"
 EXPLANATION = ("Static, decided on values (the functions are evaluated on symbols; arrays are found through the field names of the returned namespace, report "
